@@ -43,7 +43,10 @@ use futures::{
     AsyncRead, AsyncWrite,
 };
 use multiaddr::{Multiaddr, Protocol};
+#[cfg(not(litep2p_verif))]
 use tokio::net::TcpStream;
+#[cfg(litep2p_verif)]
+use crate::verif::net::TcpStream;
 use tokio_util::compat::{
     Compat, FuturesAsyncReadCompatExt, TokioAsyncReadCompatExt, TokioAsyncWriteCompatExt,
 };
